@@ -73,6 +73,7 @@ def programs(draw, tier):
             "cfault": draw(st.sampled_from([False, False, False, True])),
             "eqsrc": draw(st.sampled_from([False, True])),
             "falsy": draw(st.sampled_from([False, False, True])),
+            "reenter_after": draw(st.sampled_from([False, False, True])),
             "exit_exc": draw(st.sampled_from(["Fault", "Fault", "GeneratorExit", "KeyboardInterrupt",
                                               "StopAsyncIteration", "CancelledError"])),
             "mode": draw(st.sampled_from(["hooks", "bare"]))}
@@ -251,6 +252,19 @@ def run_program(case, cancel_at=None):
                     fail("underlying-closed-inside-block", f"after op {i}: {op}")
         if depth > 1 and closed_now():
             fail("inner-scope-closed-underlying", f"depth {depth}")
+        if case.get("reenter_after") and depth == 1:
+            # the block is over: the same context object does not open a second scope over the (closed) iterator -
+            # it is used up, like the handle it gave out
+            try:
+                async with scope as again:
+                    try:
+                        value = await again.__anext__()
+                    except StopAsyncIteration:
+                        value = _END
+            except RuntimeError:
+                pass
+            else:
+                fail("used-up-scope-entered-again", f"and its handle gave {sig(value) if value is not _END else 'nothing'}")
 
     async def program():
         try:
